@@ -2,6 +2,25 @@ use boa_sim::harness::{self, Tier, harness_error};
 
 fn main() {
     let args: Vec<String> = std::env::args().collect();
+    if args.len() >= 2 && args[1] == "kernels" {
+        // authoring aid: run every kernel once and show what it prints
+        for k in boa_sim::kernels::KERNELS {
+            let mut rng = boa_sim::rng::Rng::new(7);
+            let src = boa_sim::kernels::instantiate(k, &mut rng);
+            let (mut ctx, host) = boa_sim::js::new_default_context();
+            let r = ctx.eval(boa_engine::Source::from_bytes(src.as_str()));
+            let c = boa_sim::js::completion(&r, &mut ctx);
+            let j = ctx.run_jobs();
+            println!("== {} [{}] => {c} jobs_ok={}", k.name, k.kind, j.is_ok());
+            for l in host.trace.take() {
+                println!("   {l}");
+            }
+            for l in host.weak.take() {
+                println!("   (weak) {l}");
+            }
+        }
+        return;
+    }
     if args.len() >= 2 && args[1] == "list" {
         for p in boa_sim::props() {
             println!("{}", p.id);
